@@ -596,6 +596,36 @@ def E_voronoi_intersect(rng, tier):
             yield f"{nr}x{nc}|npts={npts}", thunk
 
 
+def E_intersect_alignments(rng, tier):
+    """small catchments (from_dict) against coarse grids at many alignments: the
+    number of coarse cells hit varies from 1 to (ratio+1)^2 for the same bounding box"""
+    from hydrodiy.gis.grid import Grid, Catchment
+    fine = Grid("fd", 12, 10, dtype=np.int64)
+    blocks = {"1x1": [(4, 5)], "2x2": [(4, 5), (4, 6), (5, 5), (5, 6)],
+              "row4": [(3, k) for k in range(2, 6)], "col3": [(k, 7) for k in range(2, 5)],
+              "L": [(6, 2), (7, 2), (8, 2), (8, 3), (8, 4)],
+              "diag": [(k, k) for k in range(1, 9)],
+              "corners": [(0, 0), (0, 11), (9, 0), (9, 11)]}
+    for bname, rc in blocks.items():
+        cells = [int(r * 12 + k) for r, k in rc]
+        for csz in (1.0, 1.5, 2.0, 3.0, 5.0):
+            for off in (0.0, 0.25, 0.5, 1.0, 1.25, 2.5):
+                def thunk(cells=cells, csz=csz, off=off):
+                    dic = {"name": "c", "idxcell_outlet": cells[0], "idxinlets": None,
+                           "idxcells_area": cells, "idxcells_area_filled": cells,
+                           "flowdir": fine.to_dict()}
+                    cat = Catchment.from_dict(dic)
+                    for filled in (False, True):
+                        for (cnr, cnc) in ((12, 14), (3, 3), (1, 1)):
+                            g2 = Grid("c", cnc, cnr, cellsize=csz, xllcorner=-off,
+                                      yllcorner=-off * 0.5)
+                            try:
+                                cat.intersect(g2, filled=filled)
+                            except (ValueError, IndexError, AssertionError):
+                                pass
+                yield f"{bname}|csz={csz}|off={off}", thunk
+
+
 ENTRIES = {
     "aggregate": E_aggregate, "flathomogen": E_flathomogen, "goue": E_goue,
     "islinear": E_islinear, "eckhardt": E_eckhardt, "var2h": E_var2h,
@@ -605,6 +635,7 @@ ENTRIES = {
     "points_inside_polygon": E_pip, "catchment": E_catchment,
     "catchment-from_dict": E_catchment_fromdict, "accumulate-slope": E_accumulate,
     "delineate_river": E_river, "voronoi-intersect": E_voronoi_intersect,
+    "intersect-alignments": E_intersect_alignments,
 }
 
 
